@@ -1,6 +1,7 @@
 package props
 
 import (
+	"bytes"
 	"fmt"
 
 	"github.com/kstenerud/go-concise-encoding/ce"
@@ -18,7 +19,7 @@ import (
 type C14Case struct {
 	Limit  string     `json:"limit"` // depth | objects | array | identifier | markers | docsize
 	Delta  int        `json:"delta"` // -1, 0, +1
-	Via    string     `json:"via"`   // rules | cbe | cte
+	Via    string     `json:"via"`   // rules | cbe | cte | cbe-stream | cte-stream (Decode from an io.Reader instead of DecodeDocument)
 	Events []ev.Event `json:"events"`
 }
 
@@ -151,7 +152,7 @@ func init() {
 			c := &C14Case{}
 			c.Limit = limits[rapid.IntRange(0, len(limits)-1).Draw(t, "limit")]
 			c.Delta = rapid.IntRange(-1, 1).Draw(t, "delta")
-			vias := []string{"rules", "cbe", "cte"}
+			vias := []string{"rules", "cbe", "cte", "cbe-stream", "cte-stream"}
 			if c.Limit == "docsize" {
 				vias = vias[1:]
 			}
@@ -168,13 +169,13 @@ func init() {
 			u := c14Meter(c.Events)
 			var doc []byte
 			switch c.Via {
-			case "cbe":
+			case "cbe", "cbe-stream":
 				d, idx, err := encodeCBE(c.Events, def)
 				if idx >= 0 {
 					return fmt.Errorf("CBE encoder failed at event %d: %v", idx, err)
 				}
 				doc = d
-			case "cte":
+			case "cte", "cte-stream":
 				d, idx, err := encodeCTE(c.Events, def)
 				if idx >= 0 {
 					return fmt.Errorf("CTE encoder failed at event %d: %v", idx, err)
@@ -222,6 +223,19 @@ func init() {
 				o := ctx.Guard(func() { _, err = decodeCTE(doc, cfg) })
 				if o.TimedOut || o.Panic != nil {
 					return fmt.Errorf("CTE decoder: %v", o)
+				}
+			case "cbe-stream", "cte-stream":
+				o := ctx.Guard(func() {
+					var d ce.Decoder
+					if c.Via == "cbe-stream" {
+						d = ce.NewCBEDecoder(cfg)
+					} else {
+						d = ce.NewCTEDecoder(cfg)
+					}
+					err = d.Decode(bytes.NewReader(doc), ce.NewRules(ev.NewRecorder(), cfg))
+				})
+				if o.TimedOut || o.Panic != nil {
+					return fmt.Errorf("%s decoder: %v", c.Via, o)
 				}
 			}
 			if c.Delta < 0 && err == nil {
